@@ -977,6 +977,12 @@ impl<'a> VisitMut for Renamer<'a> {
     }
 }
 
+pub fn rename_self(b: &mut Block, to: &str) {
+    let mut m = HashMap::new();
+    m.insert("self".to_string(), to.to_string());
+    Renamer(&m).visit_block_mut(b);
+}
+
 pub fn rename_raw_file(f: &mut File) {
     let m = HashMap::new();
     Renamer(&m).visit_file_mut(f);
